@@ -38,8 +38,9 @@ type Prog struct {
 	callees map[*ssa.Function][]*ssa.Function
 	callers map[*ssa.Function][]*ssa.Function
 	// named types in REPO (non-mock) for interface resolution
-	repoNamed []*types.Named
-	implCache map[string][]*ssa.Function
+	repoNamed  []*types.Named
+	implCache  map[string][]*ssa.Function
+	collWrites map[*ssa.Function]map[string]bool // stale.go
 }
 
 func short(s string) string { return strings.ReplaceAll(s, modPath+"/", "") }
